@@ -1,7 +1,7 @@
 (* C02 - A poll returns exactly the requested slice of the log, whichever tier holds it.
    FULL statement: every poll of every reachable state equals the slice of the abstract log
    (PartSpec.slice_offset / slice_last / slice_ts / slice_next), i.e. the model run is accepted by the monitor: *)
-From IggyV Require Import Base.Tactics Base.ListX Model.Part Model.PartSpec Proofs.PartBasics Proofs.PartHistory Proofs.PartCounts Proofs.CacheHistory Proofs.ReadExact Proofs.ReadPart Proofs.ReadHistory Proofs.OffsetsHistory Proofs.ExpiryBasics Proofs.ExpiryHistory Proofs.DedupHistory Proofs.Refine.
+From IggyV Require Import Base.Tactics Base.ListX Model.Part Model.PartSpec Proofs.PartBasics Proofs.PartHistory Proofs.PartCounts Proofs.CacheHistory Proofs.ReadExact Proofs.ReadPart Proofs.ReadHistory Proofs.OffsetsHistory Proofs.ExpiryBasics Proofs.ExpiryHistory Proofs.DedupHistory Proofs.TsPolls Proofs.Refine.
 Open Scope N_scope.
 
 Definition C02_full : Prop :=
@@ -48,7 +48,7 @@ Qed.
    in order - whether the cache, the index + log file of one segment, the unsaved buffer, a glue of file and buffer, or a run of
    several segments answers.  Side conditions: segment size > 0, no message expiry configured, offsets below 2^32, every log
    file below 2^32 bytes (32-bit index positions), non-zero send timestamps (the index-file scan treats the all-zero entry as
-   "none yet").  By-timestamp polls are not covered (C02_full remains stated for them). *)
+   "none yet").  By-timestamp polls: C02_timestamp_polls_exact below. *)
 Theorem C02_offset_polls_exact : forall ops c t0, good_cfg c -> Forall no_expiry_op ops -> Forall pos_ts_op ops ->
   Forall (fun q => abase q <= B32 /\ size_ok q) (prun_states (c, part_new c t0) ops) ->
   let c' := fst (pfinal (c, part_new c t0) ops) in let p := snd (pfinal (c, part_new c t0) ops) in
@@ -112,10 +112,22 @@ Proof.
   apply poll_offset_exact; [exact (e_R _ _ _ HE) | exact Hcount | exact Hstart].
 Qed.
 
+(* PROVED, history level, polls BY TIMESTAMP (Proofs/TsPolls.v): in every reachable state the poll returns exactly the first
+   [count] stored messages whose timestamp is at least the requested one - through the per-segment skip by end timestamp, the
+   time index (reading starts one batch before the first batch that can hold a match), the log file and the unsaved buffer. *)
+Theorem C02_timestamp_polls_exact : forall ops c t0, 0 < c_seg c -> times_ok 0 ops -> Forall bounds_ok (prun_states (c, part_new c t0) ops) ->
+  let p := snd (pfinal (c, part_new c t0) ops) in
+  forall ts count, poll_timestamp p ts count = takeN count (filter (fun m => ts <=? m_ts m) (part_all p)).
+Proof.
+  intros ops c t0 Hseg Ht Hb. cbn zeta. intros ts count. destruct (history_ET ops c t0 Hseg Ht Hb) as [HE HT].
+  apply (poll_timestamp_exact _ _ _ ts count HE HT).
+Qed.
+
 (* PROVED - REFINEMENT (Proofs/Refine.v): the specification monitor accepts EVERY run of the model, i.e. for every operation
-   list every poll by offset / first / last / next returns exactly the slice of the abstract log it asks for (by-timestamp polls excluded).  This is C02_full under the guards the real code itself enforces or the model needs: segment size > 0, poll counts >= 1
+   list every poll - by offset, by timestamp, first, last, next - returns exactly the slice of the abstract log it asks for.  This is C02_full under the guards the real code itself enforces or the model needs: segment size > 0, poll counts >= 1
    (System::poll_messages refuses count 0 before the partition is reached), offsets and log files below 2^32 (32-bit index
-   fields), send timestamps non-zero and never going backwards; by-timestamp polls are the one operation kind left out. *)
+   fields), send timestamps non-zero and never going backwards, restarts not before the last send.  Polls of every kind are
+   covered: by offset, by timestamp, first, last, next. *)
 Theorem C02_refinement : forall ops c t0, 0 < c_seg c -> times_ok 0 ops -> Forall poll_ok ops ->
   Forall bounds_ok (prun_states (c, part_new c t0) ops) -> model_check c t0 ops = 0.
 Proof. exact model_refines_spec. Qed.
@@ -135,7 +147,7 @@ Example C02_refinement_nonvacuous :
   let c := {| c_req := 2; c_seg := 150; c_cache := false; c_idx := false; c_dedup := false; c_expiry := Some 100; c_max := Some 600; c_del_oldest := true |} in
   let ops := [OSend 10 [(1, 10, 0); (2, 10, 0)]; OPoll KNext 1 false 7 true; OSend 11 [(3, 40, 0)]; ORestart 12; OPoll KNext 5 false 7 true; ODump;
               OSend 50 [(4, 10, 0); (5, 10, 0); (6, 10, 0)]; OMaintain 60; OPoll KLast 2 true 3 false; OSend 90 [(7, 1, 0)]; OSave; OGet false 7;
-              OSetCfg (Some 70) None; OSend 95 [(8, 1, 0); (9, 1, 0)]; OMaintain 125; OPoll (KOffset 1) 4 false 9 false; OPoll KFirst 3 false 9 false; ODump;
+              OSetCfg (Some 70) None; OSend 95 [(8, 1, 0); (9, 1, 0)]; OPoll (KTimestamp 50) 5 false 9 false; OMaintain 125; OPoll (KOffset 1) 4 false 9 false; OPoll (KTimestamp 91) 2 false 9 false; OPoll KFirst 3 false 9 false; ODump;
               OStore true 3 8; OStore true 3 99; ODelete false 7; OPurge 130; OSend 140 [(10, 1, 0)]; OPoll KNext 9 true 3 true; ODump] in
   0 < c_seg c /\ times_ok 0 ops /\ Forall poll_ok ops /\ Forall bounds_ok (prun_states (c, part_new c 1) ops) /\
   (* the very same observations with one polled offset altered are rejected by the monitor *)
@@ -160,3 +172,4 @@ Print Assumptions C02_offset_polls_exact_expiry.
 Print Assumptions C02_refinement.
 Print Assumptions C02_full_unguarded_refuted.
 Print Assumptions C02_refinement_nonvacuous.
+Print Assumptions C02_timestamp_polls_exact.
